@@ -283,6 +283,13 @@ class C07(F.PropCheck):
         saved = ([0] * 8, [0] * 8)     # flash image of Relay[], Time2Left[]
         cancelled = [False] * nrel     # the channel's timer was cancelled by a command and no newer one armed: nothing may remain of it, here or in flash
         prev = st_of(segs[0]); tprev = 0
+        RSTF = consts()['FLAG_RESET']
+        def reset_clause(s_, when):
+            for i in range(nrel):
+                g, ch, f, cf = rel[i]
+                if (f & RSTF) and not (f & RST) and s_['pin'][i] != (1 if f & LO else 0):
+                    v.append('RESET-FLAG %s relay gpio %d (RELAY_FLAG_RESET, no restore) is on' % (when, g))
+        reset_clause(prev, 'after the first boot')
         by_cmd = [False] * nrel        # the pending timer was armed by a server command / local switch (the same handler drives the relay and schedules the state save)
         cancel_cmd = [False] * nrel    # ... cancelled by one
         lastop = prev['t']             # latest time at which a relay operation may have (re)started the delayed state save
@@ -346,8 +353,11 @@ class C07(F.PropCheck):
                            not (time2[ch] > 0 and lv0 == 0) and not (lv0 == 0 and not (cf & consts()['CHFLAG_COUNTDOWN'])):
                             v.append('RESTORE-LOST after the restart no timer is pending for gpio %d although a timer of %d ms was started %d us before the power loss (level %d), long after the delayed state save' %
                                      (g, pd0[2], t0 - pd0[1], lv0))
+                        if prev['rel'][i] in (0, 1) and s['pin'][i] != prev['pin'][i]:
+                            v.append('RESTORE-LEVEL after the restart relay gpio %d is at pin level %d, before the power loss (long after the delayed state save) it was at %d' % (g, s['pin'][i], prev['pin'][i]))
                         if wasc and pd0 is None and time2[ch] == 0 and s['rem'][i] > 0:
                             v.append('CANCEL-RESTORED after the restart a timer of %d ms runs for gpio %d although its timer had been cancelled by a command more than the state-save delay before the power loss' % (s['rem'][i], g))
+                reset_clause(s, 'after the restart')
                 for i in range(nrel):
                     g, ch, f, cf = rel[i]; pending[i] = None; cancelled[i] = False
                     if not (f & RST) or ch >= 8 or weird[i]: continue
@@ -393,6 +403,16 @@ class C07(F.PropCheck):
                         weird[target] = False
                         on = s['pin'][target] != (1 if rel[target][2] & LO else 0)
                         if not on: d_exp = 0
+                    if e[0] == 'SW' and d_exp == 0 and s['t2l'][target] != 0 and not weird[target]:
+                        v.append('CANCEL-KEPT after the local switch of gpio %d no timer runs but %d ms of remaining time stay in the persisted state (Time2Left)' % (rel[target][0], s['t2l'][target]))
+                    if e[0] == 'SET' and not weird[target]:
+                        # the duration the statement gives the timer (plain channels; "off for d" where it is offered): the published remaining time
+                        # must be that duration minus the time the handler itself took
+                        g_, ch_, f_, cf_ = rel[target]; vv, dd = e[1][1], e[1][2]
+                        if ch_ < 8 and time2[ch_] == 0 and 0 < dd < 2**31 and (vv == 1 or ((cf_ & consts()['CHFLAG_COUNTDOWN']) and flags_known)):
+                            if not (dd - (s['t'] - t0) // 1000 - 1 <= s['rem'][target] <= dd):
+                                v.append('REMAINING-WRONG after "%s for %d ms" on gpio %d the published remaining time is %d ms' % ('on' if vv == 1 else 'off', dd, g_, s['rem'][target]))
+                            d_exp = dd
                     pending[target] = (t0, t0, d_exp, s['pin'][target]) if d_exp > 0 and not weird[target] else None
                     by_cmd[target] = pending[target] is not None and e[0] in ('SET', 'SW') and s['rem'][target] > 0
                     lastrem[target] = s['rem'][target]; lastt2[target] = s['t2l'][target]
